@@ -109,3 +109,36 @@ def classify(lines, trace):
 
 def nontrivial(lines, trace):
     return hash(tuple(trace[:1])) if lines else None
+
+
+# ---- the integration clause: exactly one record per packet transmitted, retransmissions included ----
+def gen_integration(rng, tier):
+    """whole TCP scenarios over lossy routes (segments are dropped and re-sent) with the capture on; the
+    capture of the model and of the library must be the same bytes"""
+    from . import tcommon
+    n = 40 if tier == "quick" else 800
+    out = []
+    k = 0
+    while len(out) < n:
+        k += 1
+        L = tcommon.gen(rng, k, "loss")
+        if any(l.startswith("N ") and " 1 " in l[2:] and len(l.split()) > 4 for l in L):
+            continue                     # (IPv4 only)
+        if "M pcap_on" not in L:
+            i = next(j for j, l in enumerate(L) if l.startswith("M "))
+            L = L[:i] + ["M pcap_on"] + L[i:]
+        out.append(("i%d" % k, L))
+    return out
+
+
+def oracle_integration(lines, trace):
+    bad = [l for l in trace if l.startswith(("CRASH", "EXC"))]
+    return [("c19/crash", bad[0])] if bad else []
+
+
+def nontrivial_integration(lines, trace):
+    return 1 if any(l.startswith("F ") and len(l) > 60 for l in trace) else None
+
+
+SECOND = {"mode": "sim", "flavour": "plain", "chunk": 40, "generate": gen_integration, "oracle": oracle_integration,
+          "nontrivial": nontrivial_integration}
